@@ -87,9 +87,16 @@ def eval_tree(T, tt, assign):
     return ("ok", I.STATE_NAME[node.conditions_fulfilled], fcx, getattr(node, "hint", None))
 
 
+async def _no_yield(kind, key):
+    return None
+
+
 def env_for(tt, assign, fc=None):
+    """requirement keys with an odd number are answered by SYNCHRONOUS evaluate methods, the others by coroutine methods
+    (that never suspend): user evaluators may mix both kinds"""
     hints = {k: f"Hinweis {k}" for k in R3.keys_of(tt, "hint")}
-    return I.Env(rc=dict(assign), fc=fc or {}, hints=hints)
+    sync = {("rc", k) for k in assign if int(k) % 2} | {("fc", k) for k in (fc or {}) if int(k) % 2}
+    return I.Env(rc=dict(assign), fc=fc or {}, hints=hints, yielder=_no_yield, sync=sync)
 
 
 def eval_async(expr_or_tree, tt, assign):
